@@ -40,7 +40,7 @@ func (c11) Runs(tier string) int {
 
 func (p c11) Run(runseed uint64, tier string, acc *Acc) []*core.Violation {
 	r := core.NewRng(runseed)
-	o := core.HistOpts{Shapes: allShapes, PageMin: 1, PageMax: 8, MinBatches: 0, MaxBatches: 4, MaxOps: 30, Profile: core.Benign, LargePct: 1}
+	o := core.HistOpts{Shapes: allShapes, PageMin: 1, PageMax: 8, MinBatches: 0, MaxBatches: 4, MaxOps: 30, Profile: core.Benign, LargePct: 1, ManyPct: 1, ManyMax: 60}
 	if tier == "thorough" {
 		o.MaxOps = 60
 	}
@@ -67,6 +67,9 @@ func (p c11) Run(runseed uint64, tier string, acc *Acc) []*core.Violation {
 	acc.Inc("shape/" + f.W.Shape)
 	if f.W.Large {
 		acc.Inc("class/large")
+	}
+	if f.W.Many {
+		acc.Inc("class/many-row-groups")
 	}
 	L := len(f.Data)
 	if L > 64<<10 {
